@@ -13,18 +13,22 @@ pub open spec fn first_of<K>(o: Seq<K>) -> Option<K> { if o.len() == 0 { None } 
 pub open spec fn last_of<K>(o: Seq<K>) -> Option<K> { if o.len() == 0 { None } else { Some(o[o.len() - 1]) } }
 
 // touch: an existing key moves to the MRU end, everything else keeps its relative order
+#[verifier::opaque]
 pub open spec fn lru_touch<K>(o: Seq<K>, key: K) -> Seq<K> {
     if o.contains(key) { o.remove(o.index_of(key)).push(key) } else { o }
 }
 // insert_new: a new key is appended at the MRU end; an existing one is touched
+#[verifier::opaque]
 pub open spec fn lru_insert<K>(o: Seq<K>, key: K) -> Seq<K> {
     if o.contains(key) { o.remove(o.index_of(key)).push(key) } else { o.push(key) }
 }
 // remove: exactly the named key leaves, the rest keeps its order
+#[verifier::opaque]
 pub open spec fn lru_remove<K>(o: Seq<K>, key: K) -> Seq<K> {
     if o.contains(key) { o.remove(o.index_of(key)) } else { o }
 }
 // pop_lru: the oldest key leaves
+#[verifier::opaque]
 pub open spec fn lru_pop<K>(o: Seq<K>) -> Seq<K> { if o.len() > 0 { o.remove(0) } else { o } }
 
 pub proof fn lemma_seq_remove_at<K>(o: Seq<K>, i: int)
@@ -103,6 +107,8 @@ pub proof fn lemma_lru_model<K>(o: Seq<K>, key: K)
         o.len() == 0 <==> o.to_set() == Set::<K>::empty(),
         o.contains(key) ==> 0 <= o.index_of(key) < o.len() && o[o.index_of(key)] == key,
         forall|i: int| 0 <= i < o.len() && o[i] == key ==> i == o.index_of(key),
+        !o.contains(key) ==> lru_touch(o, key) == o && lru_remove(o, key) == o && lru_insert(o, key) == o.push(key),
+        o.contains(key) ==> lru_insert(o, key) == lru_touch(o, key),
         lru_nodup(lru_touch(o, key)), lru_touch(o, key).to_set() == o.to_set(), lru_touch(o, key).len() == o.len(),
         o.contains(key) ==> last_of(lru_touch(o, key)) == Some(key),
         last_of(o) == Some(key) ==> lru_touch(o, key) == o,
@@ -113,7 +119,7 @@ pub proof fn lemma_lru_model<K>(o: Seq<K>, key: K)
         !lru_remove(o, key).contains(key),
         lru_remove(o, key).len() == (if o.contains(key) { o.len() - 1 } else { o.len() as int }),
 {
-    reveal(lru_nodup);
+    reveal(lru_nodup); reveal(lru_touch); reveal(lru_insert); reveal(lru_remove); reveal(lru_pop);
     o.unique_seq_to_set();
     if o.len() == 0 { assert(o.to_set() =~= Set::<K>::empty()); } else { assert(o.contains(o[0])); }
     assert(lru_remove(o, key).len() == (if o.contains(key) { o.len() - 1 } else { o.len() as int }));
@@ -139,10 +145,11 @@ pub proof fn lemma_lru_pop<K>(o: Seq<K>)
         o.to_set().len() == o.len(),
         o.len() == 0 <==> o.to_set() == Set::<K>::empty(),
         lru_nodup(lru_pop(o)),
+        o.len() == 0 ==> lru_pop(o) == o,
         o.len() > 0 ==> o.contains(o[0]) && o.to_set().contains(o[0]) && lru_pop(o) == lru_remove(o, o[0])
             && lru_pop(o).to_set() == o.to_set().remove(o[0]) && lru_pop(o).len() == o.len() - 1,
 {
-    reveal(lru_nodup);
+    reveal(lru_nodup); reveal(lru_touch); reveal(lru_insert); reveal(lru_remove); reveal(lru_pop);
     o.unique_seq_to_set();
     if o.len() == 0 { assert(o.to_set() =~= Set::<K>::empty()); } else {
         lemma_seq_remove_at(o, 0);
